@@ -169,24 +169,30 @@ def r2_curl(chk: Check) -> None:
         else:
             chk.decide(unparse(a).endswith("output_config.sanitize"), "C15.R2", acc, "prepare_request(self, headers, <sanitize flag>)", f"flag is {unparse(a)}", acc.loc(pr[0]))
         gen = [c for c in body_calls(acc) if dotted(c.func) == "curl.generate"]
+        rd = set(defined_by(acc, "$v = prepare_request(...)"))
         if gen:
             for k in ("url", "headers"):
                 v = kwarg(gen[0], k)
-                chk.decide(v is not None and "request_data" in names_in(v), "C15.R2", acc, f"curl.generate({k}=<from the prepared (sanitized) request>)", f"`{k}` bypasses the sanitized request: {unparse(v)}", acc.loc(gen[0]))
+                chk.decide(v is not None and bool(rd & names_in(v)), "C15.R2", acc, f"curl.generate({k}=<from the prepared (sanitized) request>)", f"`{k}` bypasses the sanitized request: {unparse(v)}", acc.loc(gen[0]))
     prq = P.func("transport/prepare.py:prepare_request")
     g = cfg_of(prq)
     ifs = [n for n in walk_body(prq.node) if isinstance(n, ast.If) and unparse(n.test) == "sanitize"]
     if not ifs:
         chk.violation("C15.R2", prq, "if sanitize: ...", "prepare_request ignores its sanitize flag", prq.loc())
         return
-    body_t = "\n".join(unparse(s, 2000) for s in ifs[0].body)
-    for needle, what in (
-        ("kwargs['url'] = sanitize_url(kwargs['url'])", "URL (userinfo, query)"),
-        ("sanitize_value(kwargs['headers'])", "headers"),
-        ("sanitize_value(kwargs['cookies'])", "cookies"),
-        ("sanitize_value(kwargs['params'])", "query parameters"),
+    # the serialized request mapping: result of serialize_case(...), later splatted into requests.Request(**...)
+    kv = defined_by(prq, "$v = $_.serialize_case(...)")
+    if not kv:
+        chk.undecided("C15.R2", prq, "serialized request mapping", "serialize_case(...) result not found", prq.loc())
+        return
+    K = kv[0]
+    for pat, needle, what in (
+        (f"{K}['url'] = sanitize_url({K}['url'])", "kwargs['url'] = sanitize_url(kwargs['url'])", "URL (userinfo, query)"),
+        (f"sanitize_value({K}['headers'])", "sanitize_value(kwargs['headers'])", "headers"),
+        (f"sanitize_value({K}['cookies'])", "sanitize_value(kwargs['cookies'])", "cookies"),
+        (f"sanitize_value({K}['params'])", "sanitize_value(kwargs['params'])", "query parameters"),
     ):
-        chk.decide(needle in body_t, "C15.R2", prq, needle, f"{what} are not sanitized for the reproduction command", prq.loc(ifs[0]))
+        chk.decide(phas(pat, ifs[0].body), "C15.R2", prq, needle, f"{what} are not sanitized for the reproduction command", prq.loc(ifs[0]))
     req = [c for c in body_calls(prq) if dotted(c.func) == "requests.Request"]
     if req:
         rn = g.stmt_nodes_containing(req[0])
@@ -210,8 +216,12 @@ def r3_plumbing(chk: Check) -> None:
     v = kwarg(cw[0], "sanitize_output") if cw else None
     chk.decide(v is not None and unparse(v) == "config.report.sanitize_output", "C15.R3", ih, "CassetteWriter(sanitize_output=config.report.sanitize_output)", f"writer gets {unparse(v)}", ih.loc())
     post = P.func(f"{CAS}:CassetteWriter.__post_init__")
-    d = next((v for _, v in assignments_to(post.node, "kwargs") if isinstance(v, ast.Dict)), None)
+    d = next((n for n in walk_body(post.node) if isinstance(n, ast.Dict) and any(const_str(k) == "sanitize_output" for k in n.keys if k is not None)), None)
     have = {const_str(k): unparse(val) for k, val in zip(d.keys, d.values)} if d is not None else {}
+    # ... and that mapping is what the writer thread receives
+    th = [c for c in body_calls(post) if last_attr(c) == "Thread"]
+    dn = {name_of(b, "v") for n_, b in pfind("$v = $X", post.node) if b["X"] is d}
+    chk.decide(bool(th) and (kwarg(th[0], "kwargs") is d or (isinstance(kwarg(th[0], "kwargs"), ast.Name) and kwarg(th[0], "kwargs").id in dn)) if d is not None else None, "C15.R3", post, "the mapping with sanitize_output is the writer thread's kwargs", "the writer thread is started with other keyword arguments", post.loc())
     chk.decide(have.get("sanitize_output") == "self.sanitize_output", "C15.R3", post, "writer kwargs['sanitize_output'] = self.sanitize_output", f"writer thread gets {have.get('sanitize_output')}", post.loc())
     cls = P.cls(f"{CAS}:CassetteWriter")
     dflt = [s for s in cls.node.body if isinstance(s, ast.AnnAssign) and isinstance(s.target, ast.Name) and s.target.id == "sanitize_output"]
@@ -226,9 +236,12 @@ def r4_sanitizer(chk: Check) -> None:
     P = chk.project
     sv = P.func("core/output/sanitization.py:sanitize_value")
     t = unparse(sv.node, 100000)
-    chk.expect("lower_key = key.lower()" in t, "C15.R4", sv, "keys lower-cased before matching", "matching is case-sensitive: `Authorization` / `X-API-KEY` slip through", sv.loc())
-    chk.expect("lower_key in config.keys_to_sanitize" in t and "any((marker in lower_key for marker in config.sensitive_markers))" in t, "C15.R4", sv, "exact keys OR substring markers", "one of the two matching rules is gone", sv.loc())
-    chk.expect("item[key] = [config.replacement]" in t and "item[key] = config.replacement" in t, "C15.R4", sv, "list and scalar values replaced by the marker", "a value shape is left unredacted", sv.loc())
+    lk = pfind("$l = $k.lower()", sv.node)
+    chk.expect(bool(lk), "C15.R4", sv, "keys lower-cased before matching", "matching is case-sensitive: `Authorization` / `X-API-KEY` slip through", sv.loc())
+    L = name_of(lk[0][1], "l") if lk else "lower_key"
+    KN = name_of(lk[0][1], "k") if lk else "key"
+    chk.expect(phas(f"{L} in config.keys_to_sanitize or any(($m in {L} for $m in config.sensitive_markers))", sv.node), "C15.R4", sv, "exact keys OR substring markers", "one of the two matching rules is gone", sv.loc())
+    chk.expect(phas(f"item[{KN}] = [config.replacement]", sv.node) and phas(f"item[{KN}] = config.replacement", sv.node), "C15.R4", sv, "list and scalar values replaced by the marker", "a value shape is left unredacted", sv.loc())
     rec = [c for c in body_calls(sv) if last_attr(c) == "sanitize_value"]
     chk.decide(len(rec) >= 2 and all(kwarg(c, "config") is not None for c in rec), "C15.R4", sv, "recursion into nested mappings and sequences with the same config", "nested containers are not visited / lose the custom config", sv.loc())
     su = P.func("core/output/sanitization.py:sanitize_url")
@@ -237,19 +250,24 @@ def r4_sanitizer(chk: Check) -> None:
     # authority: redacted whenever '@' is present in the netloc
     tests = [(tid, e) for tid, e in guard_tests(g, lambda e: True)]
     cond = [unparse(e) for _, e in tests]
-    netloc_assign = [s for s, v in assignments_to(su.node, "netloc") if v is not None and "replacement" in unparse(v)]
+    rep_ = [c for c in body_calls(su) if last_attr(c) == "_replace" and kwarg(c, "netloc") is not None]
+    nl = kwarg(rep_[0], "netloc").id if rep_ and isinstance(kwarg(rep_[0], "netloc"), ast.Name) else "netloc"  # type: ignore[union-attr]
+    netloc_assign = [s for s, v in assignments_to(su.node, nl) if v is not None and "replacement" in unparse(v)]
     if not netloc_assign:
         chk.violation("C15.R4", su, "authority redacted when userinfo is present", "URL userinfo is never redacted", su.loc())
     else:
         p_ = parent(netloc_assign[0])
         tt = unparse(p_.test) if isinstance(p_, ast.If) else "?"
-        ok = isinstance(p_, ast.If) and (("len(netloc_parts) > 1" in tt) or ("'@' in" in tt) or ("username" in tt and "password" in tt and " or " in tt))
-        narrowed = isinstance(p_, ast.If) and ("password" in tt and "username" not in tt and "@" not in tt and "netloc_parts" not in tt)
+        split_at = set(defined_by(su, "$v = $_.netloc.split('@')")) | set(defined_by(su, "$v = $_.split('@')"))
+        ok = isinstance(p_, ast.If) and (any(phas(f"len({v_}) > 1", p_.test) for v_ in split_at) or ("'@' in" in tt) or ("username" in tt and "password" in tt and " or " in tt))
+        narrowed = isinstance(p_, ast.If) and ("password" in tt and "username" not in tt and "@" not in tt and not any(v_ in tt for v_ in split_at))
         chk.decide(True if ok else (False if narrowed else None), "C15.R4", su, "authority redacted when userinfo is present",
                    f"redaction is conditioned on `{tt}`: userinfo without a password (token-as-username) is written in clear", su.loc(netloc_assign[0]))
     del cond
-    chk.expect("sanitize_value(query, config=config)" in t and "parse_qs(parsed.query, keep_blank_values=True)" in t, "C15.R4", su, "query parameters sanitized by key", "query parameters are not sanitized", su.loc())
-    chk.expect("_replace(netloc=netloc, query=sanitized_query)" in t, "C15.R4", su, "sanitized parts are what is returned", "the URL is rebuilt from unsanitized parts", su.loc())
+    qv = pfind("$q = parse_qs($p.query, keep_blank_values=True)", su.node)
+    chk.expect(bool(qv) and phas("sanitize_value($q, config=config)", su.node, env={"q": qv[0][1]["q"]}), "C15.R4", su, "query parameters sanitized by key", "query parameters are not sanitized", su.loc())
+    rq = kwarg(rep_[0], "query") if rep_ else None
+    chk.expect(bool(rep_) and bool(qv) and bool(netloc_assign) and any(f"urlencode({name_of(qv[0][1], 'q')}" in x for x in canon(su, rq)), "C15.R4", su, "sanitized parts are what is returned", "the URL is rebuilt from unsanitized parts", su.loc())
     # defaults contain the credential-bearing header names the property lists
     mod = su.module
     keys = next((s.value for s in mod.tree.body if isinstance(s, ast.Assign) and unparse(s.targets[0]) == "DEFAULT_KEYS_TO_SANITIZE"), None)
